@@ -220,6 +220,10 @@ func c09ReentrantRun(c *runner.Ctx) {
 				if nestedKind == "stored" {
 					c.Nontrivial(hashAny(c.Idx, si, dn, at, k), 1)
 				}
+				if c.WantSample() && nestedKind == "stored" {
+					c.Sample(map[string]interface{}{"phase": "reentrant", "segment_kind": sg.Kind, "docs": n, "outer": fmt.Sprintf("VisitStoredFields(%d) [block %d], %d values", dn, dn/128, len(want)),
+						"nested": fmt.Sprintf("inside the callback of value %d: VisitStoredFields of a document in another block", at), "outer_result_equal_to_specification": true, "value_in_callback_unchanged_by_nested_call": true})
+				}
 			}
 		}
 		// (b) nested reads inside a doc-value visitor
